@@ -234,6 +234,10 @@ func c05Match(w ref.Want, g c05Got) bool {
 	return w.Reason == g.Reason
 }
 
+// c05OtherInvalid is wrong in every field, with offending values that occur nowhere else in the alphabets.
+var c05OtherInvalid = cors.Config{Origins: []string{"https://other.invalid/path", "null"}, Credentialed: true, Methods: []string{"other method"}, RequestHeaders: []string{"Other Name", "Cookie2"},
+	ResponseHeaders: []string{"Set-Cookie2", "*"}, MaxAgeInSeconds: -77, ExtraConfig: cors.ExtraConfig{PreflightSuccessStatus: 777, PrivateNetworkAccess: true, PrivateNetworkAccessInNoCORSModeOnly: true}}
+
 func c05Judge(k c04Case) *vlib.Failure {
 	want := ref.Validate(c04Atom(k))
 	_, err, f := c04Run(k)
@@ -262,12 +266,28 @@ func c05Judge(k c04Case) *vlib.Failure {
 		return vlib.Failf("%s reports nothing for %s, which contains %d violation(s): %+v", k.Via, k.Cfg.GoLiteral(), len(want), want)
 	}
 	var got []c05Got
+	var leaves []error
 	for e := range cfgerrors.All(err) {
 		g, f := c05Describe(e)
 		if f != nil {
 			return f
 		}
 		got = append(got, g)
+		leaves = append(leaves, e)
+	}
+	// error values are values: another failing validation (of a configuration that is wrong in every field, with other
+	// offending values) must not change what the errors of this one say
+	before := err.Error()
+	_, _ = cors.NewMiddleware(c05OtherInvalid)
+	other := c05OtherInvalid
+	_ = new(cors.Middleware).Reconfigure(&other)
+	for i, e := range leaves {
+		if g, _ := c05Describe(e); g != got[i] {
+			return vlib.Failf("an error returned for %s said %+v; after an unrelated failing NewMiddleware / Reconfigure the same error value says %+v", k.Cfg.GoLiteral(), got[i], g)
+		}
+	}
+	if after := err.Error(); after != before {
+		return vlib.Failf("the message of the error returned for %s changed after an unrelated failing validation: %q, then %q", k.Cfg.GoLiteral(), before, after)
 	}
 	for _, w := range want {
 		found := false
